@@ -350,7 +350,7 @@ type typedPoolCase struct {
 }
 
 func genTypedPool(s core.Source) typedPoolCase {
-	c := typedPoolCase{Type: core.Pick(s, []string{"[]int", "map[string]int", "[][]int", "[]string", "map[int][]int", "map[int]int/large", "map[int]int/large"}, "type")}
+	c := typedPoolCase{Type: core.Pick(s, []string{"[]int", "map[string]int", "[][]int", "[]string", "map[int][]int", "map[int]int/large", "map[int]int/large", "[]float64"}, "type")}
 	if c.Type == "map[int]int/large" {
 		// maps with up to 70 keys (the collator sorts the keys of a map before it ranks): a base map, a copy,
 		// the base with one more key (first, middle or last in key order), the base with one value changed
@@ -507,6 +507,20 @@ func execTypedPool(prop string) func(typedPoolCase, core.Source) core.Result {
 				}
 			}
 			v, distinct = typedAxioms(prop, c.Type, vals, func(i, j int) int { return cmpIntSlices(c.Codes[i], c.Codes[j]) })
+		case "[]float64":
+			// codes 0..4 stand for NaN, -1.5, -0.0, +0.0, 2.5: NaN before every number and equal to itself, the zeros equal
+			pool := []float64{math.NaN(), -1.5, math.Copysign(0, -1), 0, 2.5}
+			key := []int{0, 1, 2, 2, 3}
+			vals := make([][]float64, len(c.Codes))
+			keys := make([][]int, len(c.Codes))
+			for i, code := range c.Codes {
+				vals[i] = []float64{}
+				for _, k := range code {
+					vals[i] = append(vals[i], pool[k])
+					keys[i] = append(keys[i], key[k])
+				}
+			}
+			v, distinct = typedAxioms(prop, c.Type, vals, func(i, j int) int { return cmpIntSlices(keys[i], keys[j]) })
 		case "map[int]int/large":
 			// codes are (key, value) pairs; the maps are filled in a scrambled order
 			vals := make([]map[int]int, len(c.Codes))
@@ -534,6 +548,38 @@ func execTypedPool(prop string) func(typedPoolCase, core.Source) core.Result {
 				vals[i] = mapOf(code)
 			}
 			v, distinct = typedAxioms(prop, c.Type, vals, func(i, j int) int { return cmpIntSlices(flatMap(vals[i]), flatMap(vals[j])) })
+			if v == nil {
+				// the same map objects, changed in place between two rankings on one collator (a key replaced:
+				// the size stays the same): the result must be what a fresh collator says
+				reused, fresh := age.Collator[map[string]int]().Make(), age.Collator[map[string]int]().Make()
+				for i := range vals {
+					for j := range vals {
+						if i == j || len(vals[i]) == 0 || v != nil {
+							continue
+						}
+						reused.RankValues(vals[i], vals[j])
+						reused.CompareValues(vals[i], vals[j])
+						// replace one key of the first map in place (the size stays the same), rank the same two objects again
+						var oldKey string
+						for k := range vals[i] {
+							if oldKey == "" || k < oldKey {
+								oldKey = k
+							}
+						}
+						oldVal := vals[i][oldKey]
+						delete(vals[i], oldKey)
+						vals[i]["zz"] = oldVal
+						if a, b := reused.RankValues(vals[i], vals[j]), fresh.RankValues(vals[i], vals[j]); a != b {
+							v = core.Violate(prop+"/typed/depends-on-history/map-changed-in-place", "after a key of the first map was replaced in place, a collator that had ranked the two maps before says %v for %v vs %v, a fresh collator says %v", a, vals[i], vals[j], b)
+						}
+						if a, b := reused.CompareValues(vals[j], vals[i]), fresh.CompareValues(vals[j], vals[i]); a != b {
+							v = core.Violate(prop+"/typed/depends-on-history/map-changed-in-place", "after a key of the second map was replaced in place, a collator that had compared the two maps before says %v for %v vs %v, a fresh collator says %v", a, vals[j], vals[i], b)
+						}
+						delete(vals[i], "zz")
+						vals[i][oldKey] = oldVal
+					}
+				}
+			}
 		default: // map[int][]int
 			vals := make([]map[int][]int, len(c.Codes))
 			flat := make([][]int, len(c.Codes))
